@@ -116,13 +116,16 @@ class Box:
                 stride = strides[1]
                 skirt_top_remainder = skirt[0] % upscaling_factor
 
-                total_stride = stride * (new_end_coord[-3] - new_start_coord[-3] - 1)
+                # Without upscaling the OFM may be taller than the IFM (explicit padding of a fused PAD): the kernel
+                # positions follow the OFM rows, not the rows clipped to the IFM height
+                ofm_end = original_end_coord[-3] if upscaling_factor == 1 else new_end_coord[-3]
+                total_stride = stride * (ofm_end - new_start_coord[-3] - 1)
                 new_start_coord[-3] = new_start_coord[-3] * stride - skirt[0] + skirt_top_remainder
 
                 pad_top = max(0, 0 - new_start_coord[-3]) + skirt_top_remainder
                 new_start_coord[-3] = max(new_start_coord[-3], 0)
 
-                if (new_end_coord[-3] * stride + skirt[2]) > (ifm_shape.height * upscaling_factor):
+                if (ofm_end * stride + skirt[2]) > (ifm_shape.height * upscaling_factor):
                     # pad_bottom is calculated based the diff between the end position of the weight kernel,
                     # after last stride and the ifm height.
                     if upscaling_factor != 1 and original_end_coord[-3] > ifm_shape.height * upscaling_factor:
